@@ -162,15 +162,27 @@ class History:
         a, b = dense_of(a), dense_of(b)
         return a.shape == b.shape and np.allclose(a, b, rtol=0, atol=1e-12 * (np.abs(self.M0).sum() + 1e-300))
 
-    def _merge(self, state, lists):
-        mat, il = state
-        with quiet():
-            return self.rm.merge_matrix_cells(my_matrix=mat, all_to_join=[list(l) for l in lists], index_list=il)
+    @staticmethod
+    def _as_form(lists, form):
+        """Equivalent ways of passing the same cell ids: python ints, numpy integers, tuples, arrays."""
+        if form == 1:
+            return [[np.int64(c) for c in l] for l in lists]
+        if form == 2:
+            return [tuple(l) for l in lists]
+        if form == 3:
+            return [np.array(l, dtype=int) for l in lists]
+        return [list(l) for l in lists]
 
-    def _delete(self, state, cells):
+    def _merge(self, state, lists, form=0):
         mat, il = state
         with quiet():
-            return self.rm.delete_rate_cells(mat, to_remove=list(cells), index_list=il)
+            return self.rm.merge_matrix_cells(my_matrix=mat, all_to_join=self._as_form(lists, form), index_list=il)
+
+    def _delete(self, state, cells, form=0):
+        mat, il = state
+        arg = [list(cells), [np.int64(c) for c in cells], tuple(cells), np.array(cells, dtype=int)][form % 4]
+        with quiet():
+            return self.rm.delete_rate_cells(mat, to_remove=arg, index_list=il)
 
     def step(self, op):
         self.ops.append(op)
@@ -191,7 +203,7 @@ class History:
                 alts = self.model.merge_alternatives(lists)
                 if len(alts) > 1:
                     self.flags.add("ambiguous_link_through_deleted_cell")
-                new_real = {k: self._merge(v, lists) for k, v in self.real.items()}
+                new_real = {k: self._merge(v, lists, op.get("form", 0)) for k, v in self.real.items()}
                 got = il_plain(new_real["dense"][1])
                 chosen = None
                 for alt in alts:
@@ -229,7 +241,7 @@ class History:
                 if any(len(g) > 1 and set(g) & set(cells) for g in self.model.groups):
                     self.flags.add("delete_merged_group")
                 self.model.delete(cells)
-                self.real = {k: self._delete(v, cells) for k, v in self.real.items()}
+                self.real = {k: self._delete(v, cells, op.get("form", 0)) for k, v in self.real.items()}
         except Exception as e:
             return [f"{op}: exception {type(e).__name__}: {e}"]
         for kind, (mat, il) in self.real.items():
@@ -358,13 +370,13 @@ def _machine_shard(arg):
                 lists = data.draw(st.lists(st.lists(ids, min_size=1, max_size=4), min_size=1, max_size=3))
                 perm = data.draw(st.lists(st.integers(0, 5), min_size=len(lists), max_size=len(lists) + 2))
                 self._after(self.h.step({"kind": "merge", "lists": lists, "perm": perm,
-                                         "dup": data.draw(st.integers(0, 2))}))
+                                         "dup": data.draw(st.integers(0, 2)), "form": data.draw(st.integers(0, 3))}))
 
             @precondition(lambda self: self.h is not None and self.h.n_rows() > 0)
             @rule(data=st.data())
             def delete(self, data):
                 cells = data.draw(st.lists(st.integers(0, self.n - 1), min_size=0, max_size=3))
-                self._after(self.h.step({"kind": "delete", "cells": cells}))
+                self._after(self.h.step({"kind": "delete", "cells": cells, "form": data.draw(st.integers(0, 3))}))
 
             @precondition(lambda self: self.h is not None and self.h.n_rows() == 0)
             @rule()
